@@ -116,7 +116,7 @@ Ltac use_near :=
 
 Ltac solve_case :=
   intros;
-  cbv beta iota zeta delta [veval eval with_d P cat_logpdf cat_logcdf cat_cdf nth];
+  cbv beta iota zeta delta [veval eval with_d P cat_logpdf cat_logcdf cat_cdf cat_pdfm pdf_of nth];
   rewrite ?Ztrunc_IZR, ?Ztrunc_half;
   cbv -[Rplus Rminus Rmult Rdiv Ropp Rinv Rabs exp ln Rpower sqrt PI IZR Rltb Rleb Reqb Rpos Rneg
         is_intb Zfloor Ztrunc
